@@ -41,6 +41,10 @@ func main() {
 	lap := func(name string) { phases[name] = time.Since(t0).Seconds(); t0 = time.Now() }
 	// ---- layer 1: random multisets -----------------------------------------------------------
 	nCases := r.Pick(4000, 40000)
+	only := os.Getenv("C19_ONLY") // diagnostic: "live" skips layer 1 (the coverage floors then fail the run)
+	if only == "live" {
+		nCases = 0
+	}
 	workers := runtime.NumCPU()
 	if workers > 16 {
 		workers = 16
@@ -65,6 +69,9 @@ func main() {
 
 	// ---- layer 1: small scope, every sequence ---------------------------------------------------
 	L := r.Pick(4, 5)
+	if only == "live" {
+		L = 1
+	}
 	var wg2 sync.WaitGroup
 	for first := 0; first < len(smallAlphabet()); first++ {
 		wg2.Add(1)
@@ -87,9 +94,9 @@ func main() {
 
 	lap("concurrent")
 	// ---- layer 2: live cluster ----------------------------------------------------------------------
-	liveRuns, transfers := r.Pick(1, 6), r.Pick(40, 120)
+	liveRuns, episodes, transfers := r.Pick(1, 6), r.Pick(5, 12), r.Pick(6, 10)
 	for i := 0; i < liveRuns; i++ {
-		runLive(r, r.Seed*9_000_011+int64(i), transfers)
+		runLive(r, r.Seed*9_000_011+int64(i), episodes, transfers)
 	}
 	collectRaces(r, "live 3-node cluster with leader transfers")
 	lap("live")
@@ -101,10 +108,10 @@ func main() {
 	r.FloorCount("gossip_exchanges", int64(r.Pick(50_000, 500_000)))
 	r.FloorCount("small_scope_sequences", int64(r.Pick(22_620, 271_452)))
 	r.FloorCount("concurrent_rounds", int64(r.Pick(3, 20)))
-	r.FloorCount("live_runs_converged", 1)
+	r.FloorCount("live_episodes_converged", int64(r.Pick(2, 30)))
 	r.FloorCount("live_headers_observed", int64(r.Pick(2000, 20000)))
-	r.FloorCount("live_transfers_completed", int64(r.Pick(4, 60)))
-	r.FloorDistinct("live_table_shard_terms_in_headers", int64(r.Pick(4, 50)))
+	r.FloorCount("live_transfers_completed", int64(r.Pick(10, 200)))
+	r.FloorDistinct("live_table_shard_terms_in_headers", int64(r.Pick(8, 150)))
 	r.Finish()
 }
 
